@@ -139,6 +139,11 @@ type RawUnixFS struct {
 	HasFanout   bool
 	Mode        uint64
 	HasMode     bool
+	// Mtime (UnixFS 1.5): seconds may be negative (before 1970)
+	HasMtime    bool
+	MtimeSec    int64
+	MtimeNanos  uint32
+	HasNanos    bool
 	Extra       []byte // appended verbatim (unknown fields, garbage)
 }
 
@@ -180,6 +185,17 @@ func (u *RawUnixFS) Encode() []byte {
 	if u.HasMode {
 		out = protowire.AppendTag(out, 7, protowire.VarintType)
 		out = protowire.AppendVarint(out, u.Mode)
+	}
+	if u.HasMtime {
+		var mt []byte
+		mt = protowire.AppendTag(mt, 1, protowire.VarintType)
+		mt = protowire.AppendVarint(mt, uint64(u.MtimeSec))
+		if u.HasNanos {
+			mt = protowire.AppendTag(mt, 2, protowire.Fixed32Type)
+			mt = protowire.AppendFixed32(mt, u.MtimeNanos)
+		}
+		out = protowire.AppendTag(out, 8, protowire.BytesType)
+		out = protowire.AppendBytes(out, mt)
 	}
 	out = append(out, u.Extra...)
 	return out
